@@ -26,14 +26,21 @@ CLAIMS = {
          "observers+chamber implementation model yields exactly the deliveries and answers of the abstract multicast set (refinement with "
          "an abstraction function); C06_closed_reports / C06_closed_for_ever: after a terminal or unsubscribe the subject is finished, "
          "empty and silent for ever. One model serves Subject, SubjectThreads and the three MutRef subjects (one macro body); each run "
-         "executes all histories <= 4 operations (18 kinds) plus 50k random longer ones on all five real types. Lock-level interleavings "
-         "of SubjectThreads are not covered here (C10).", "DESIGN.md section 5 C06"),
+         "executes all histories <= 4 operations (18 kinds) plus 50k random longer ones on all five real types. Thread interleavings of "
+         "SubjectThreads: a lock-level model with the shared state (Ileave.v) is run against real threads under explicit schedules - every "
+         "schedule with <= 3 context switches for 15 sets of 2-3 thread scripts plus random ones, each thread parked before every mutex "
+         "through a hook - compared acquisition by acquisition and judged by exactly-once / common order / nothing lost / nothing after "
+         "unsubscribe; the statements for ALL schedules are theorems over that model (see C10).", "DESIGN.md section 5 C06"),
  "C12": ("Theorems C12_behavior_refines / C12_value_is_latest / C12_hands_latest: for every sequential history of next / next_by / clone / "
          "subscribe / unsubscribe / peek / complete / error (any length), the subject-plus-value-cell model equals the abstract 'multicast "
          "set + most recent value'; the stored value is the last one passed to next/next_by through any handle (or the initial one); a new "
          "subscriber is handed it first, peek returns it, next_by applies its function to it. Each run executes all histories <= 4 operations "
-         "(15 kinds) and 30k random ones on BehaviorSubject over Subject and over SubjectThreads. PARTIAL: the clause about concurrent "
-         "producers over the thread-safe subject is not decided by this check.", "DESIGN.md section 5 C12"),
+         "(15 kinds) and 30k random ones on BehaviorSubject over Subject and over SubjectThreads. Concurrent producers over the thread-safe "
+         "subject: the lock-level model (Ileave.v) against real threads under every schedule with <= 3 context switches for 9 sets of "
+         "scripts (two producers; a producer and a joining subscriber; peek) plus random ones, judged by 'the stored value is the one "
+         "delivered last in the common order' and 'a joiner is handed the latest value and then every later item'. Both fail on the crate "
+         "as it is - store and broadcast are separate critical sections - KNOWN FINDING C12-behavior-race (C12_concurrent_refuted is its "
+         "witness in the model).", "DESIGN.md section 5 C12"),
  "C20": ("Theorems C20_announces / C20_group_trace / C20_flatten / C20_outer_term / C20_announced_first: for every script, key function "
          "and terminal, the group_by machine announces one group per distinct key in order of first appearance, each before anything is "
          "delivered through it; the subscriber of group k sees exactly the items of key k in source order and then the source's terminal "
@@ -48,8 +55,10 @@ CLAIMS = {
          "commit). Each run executes all stimulus sequences <= 5 steps with <= 3 inners for merge_all(1|2|3|MAX), concat_all, flatten, "
          "flat_map, concat_map in both forms plus 40k random longer ones, compares the full per-stimulus trace (inner subscriptions, "
          "completions, tagged items, terminal, panic/hang) with the model and judges it with the extracted predicates (limit, grammar, "
-         "outer order, completion exactly when done / no starvation). PARTIAL: 'every inner item exactly once in its own order' is "
-         "established by the full-trace correspondence, not by a separate theorem.", "DESIGN.md section 5 C05"),
+         "outer order, completion exactly when done / no starvation, items exactly once). C05_items_exactly_once (every notification of a subscribed "
+         "hot inner observable owes exactly one item per subscription, a synchronous inner observable its whole script, and no item occurs that "
+         "is not owed - walked with a state computed from stimuli and subscription events only), C05_subscribed_in_outer_order, "
+         "C05_concat_keeps_outer_order (limit 1: no other inner observable's item inside an inner observable's turn).", "DESIGN.md section 5 C05"),
  "C19": ("Theorems on the scheduler bookkeeping model (Remote::poll, the delay/timer stages of Scheduler::schedule, RepeatTask, "
          "TaskHandle) for one task followed through EVERY sequence of polls, clock advances, cancellations and queries: C19_once_at_most_once, "
          "C19_never_before_delay, C19_repeat_ticks (consecutive sequence numbers, first tick >= one period after scheduling, later ticks >= "
@@ -59,15 +68,19 @@ CLAIMS = {
          "kinds plus 40k random multi-task interleavings; full trace compared with the model and judged by the extracted predicate raw_ok. "
          "PARTIAL: 'is not still running when unsubscribe() returns' across threads is not modelled (single-threaded polls only); the real "
          "LocalPool/ThreadPool are represented by the choice of poll labels.", "DESIGN.md section 5 C19"),
- "C07": ("Theorems (for every order and timing of polls, clock advances and cancellations): every notification relayed by delay / "
-         "observe_on / delay_subscription / subscribe_on travels in its own one-shot task, which runs at most once (C07_at_most_once), never "
-         "before production time + delay (C07_never_early) and never after unsubscribe (C07_not_after_unsubscribe). The operator-level statement "
-         "(each delivery is the polled task's own notification, in task order under a FIFO executor, errors forwarded at once by delay) is "
-         "evaluated by the extracted predicates relay_ok / passthru_ok on every implementation trace and every model trace and by full-trace "
-         "equality with the timed model: all label sequences <= 4 plus 4k random ones per operator and form on the crate's hook scheduler with "
-         "a virtual clock, and the _at forms' requested durations. PARTIAL: relay_ok is not yet proved of the model for all label sequences "
-         "(it is for C08's predicates); order preservation is NOT claimed for executors that run ready tasks out of order (it does not hold: "
-         "each notification is an independent task); the real ThreadPool is not run.", "DESIGN.md section 5 C07"),
+ "C07": ("Theorems over the timed system for EVERY label sequence (input notifications, polls of any task at any time and in any order, clock "
+         "advances of any size, unsubscribe, queries): C07_delay / C07_observe_on (every delivery is the polled task's own notification, no "
+         "earlier than arrival + delay, at most once, never after a terminal or after unsubscribe; delay forwards an error at once), "
+         "C07_delay_subscription / C07_subscribe_on (the input's own notifications, none before the delay, none after unsubscribe), "
+         "C07_delay_order / C07_observe_on_order (the t-th task carries the t-th relayed notification; whenever tasks are run in scheduling "
+         "order - a FIFO executor - the deliveries are a sub-sequence of the input in input order), C07_delay_fifo_complete / "
+         "C07_observe_on_fifo_complete (a FIFO executor polling as timers fall due delivers everything, in order, each exactly the delay "
+         "late), C07_delay_error_prefix (a failing source: the error at once and nothing else), plus the single-task theorems "
+         "C07_never_early / _at_most_once / _not_after_unsubscribe. The same predicates judge every implementation trace, and full traces are "
+         "compared with the timed model: all label sequences <= 4 plus 4k random ones per operator and form on the crate's hook scheduler with a "
+         "virtual clock, and the _at forms' requested durations. Order preservation is NOT claimed for executors that run ready tasks out of "
+         "order: it does not hold (C07_example_unordered_polls_reorder), each notification being an independent task; the real ThreadPool is "
+         "not run.", "DESIGN.md section 5 C07"),
  "C08": ("Theorems over EVERY label sequence (polls of any task at any time, clock advances of any size, unsubscribe, downstream finishing): "
          "C08_interval / C08_interval_at (consecutive integers, first not before one period / the given instant, later ones at least one period "
          "apart, never after unsubscribe), C08_interval_prompt (exactly one period apart when polled as the timer falls due), C08_timer (the item "
@@ -75,13 +88,17 @@ CLAIMS = {
          "from_stream and the _result forms relay exactly what the scripted future / stream yields, then terminate). These predicates are proved "
          "of the timed model by simulation and evaluated on every implementation trace; full traces are compared with the model on 390k cases.",
          "DESIGN.md section 5 C08"),
- "C09": ("Theorems (every order and timing of polls): a debounce / throttle window task fires at most once, never before the window has "
-         "elapsed, never once cancelled; buffer_with_time flushes are at least a window apart. The operator-level statement (outputs are a "
-         "sub-sequence of the input: no invented, duplicated or reordered item; buffers non-empty, within the count limit, their concatenation "
-         "a prefix of the input and the whole input on completion) is evaluated by the extracted predicates subseq_ok / buffers_ok on every "
-         "implementation and model trace, and by full-trace equality with the timed model (debounce, throttle x 3 edges, buffer_with_time, "
-         "buffer_with_count_and_time; all label sequences <= 4 plus random ones with gaps <, =, > the window). PARTIAL: subseq_ok / buffers_ok "
-         "are not yet proved of the model for all label sequences; sample(notifier) is decided under C04.", "DESIGN.md section 5 C09"),
+ "C09": ("Theorems over the timed system for EVERY label sequence (input notifications, polls of any task at any time and in any order, clock "
+         "advances of any size, unsubscribe, queries): C09_debounce / C09_throttle (all three edges) / C09_*_subsequence (what is delivered "
+         "is a sub-sequence of the accepted input: no invented, duplicated or reordered item, nothing after a terminal or unsubscribe; on "
+         "completion the last input item is delivered last - debounce, throttle with a trailing edge), C09_buffer_with_time / "
+         "C09_buffer_with_count_and_time (buffers non-empty, within the count limit, their concatenation a prefix of the input, the whole input "
+         "once completed), exactness under an executor that runs as timers fall due: C09_debounce_spaced, C09_debounce_burst, "
+         "C09_buffer_windows, C09_buffer_count_windows; plus the window-task theorems (fires at most once, never before the window has "
+         "elapsed, never once cancelled, flushes a window apart). The same predicates judge every implementation trace and full traces are "
+         "compared with the timed model (debounce, throttle x 3 edges, buffer_with_time, buffer_with_count_and_time; all label sequences <= 4 plus "
+         "random ones with gaps <, =, > the window). throttle's exact leading/trailing choice per window is covered by the full-trace "
+         "comparison, not by a closed-form theorem; sample(notifier) is decided under C04.", "DESIGN.md section 5 C09"),
  "C02": ("Theorem C02_timed: for each of delay, observe_on, delay_subscription, subscribe_on, debounce, throttle (3 edges), "
          "buffer_with_time, buffer_with_count_and_time, interval, interval_at, timer, for EVERY label sequence before the unsubscription (input "
          "events, polls of any task in any order, clock advances) and EVERY one after it, no subscriber call occurs from the unsubscribe "
@@ -91,8 +108,9 @@ CLAIMS = {
          "14 timed operators with all tasks polled in random orders afterwards, every single-input operator, the 8 combinators with all "
          "interleavings, the flattening operators with hot inner observables emitting afterwards; traces judged by 'nothing after the "
          "unsubscribe' and compared with the model. On the pinned tree throttle with a trailing edge delivered after unsubscribe (fixed, "
-         "50c4f28). PARTIAL: the _threads clause (lock-level interleavings of an unsubscribing with an emitting thread) is not decided here; "
-         "share()/ref_count is decided under C11.", "DESIGN.md section 5 C02"),
+         "50c4f28). The _threads clause: an unsubscribing thread against emitting threads on SubjectThreads under every schedule with <= 3 "
+         "context switches (lock-level model Ileave.v against real threads parked before every mutex), judged by 'no call of the subscriber "
+         "after its unsubscribe() returned'; other thread-safe pipelines are not enumerated. share()/ref_count is decided under C11.", "DESIGN.md section 5 C02"),
  "C17": ("Theorems: C17_closed_sound (every scheduler-using operator / time source, every reachable state: is_closed() = true implies no "
          "subscriber call under any continuation); for the subscription algebra under EVERY history of append / unsubscribe / is_closed / leaf "
          "termination: C17_late_additions (a leaf appended to an unsubscribed composite is torn down at once), C17_algebra_closed_sound "
@@ -119,9 +137,13 @@ CLAIMS = {
          "_subscribe_unsubscribe_ / _two_input_disciplined (the crate's operations are such programs), C10_cancel_waits_for_running_poll over "
          "all executions of Remote::poll against TaskHandle::unsubscribe, with the refutation of the variant that lets go of the mutex. The "
          "programs are tied to the crate by recording, through a hook in MutArc, the mutexes every operation locks and comparing them with the "
-         "model's acquisitions; real-thread stress runs check overlap, common order and termination on seven pipelines. PARTIAL: the common-"
-         "order clause and the lost-wake-up clause (C14_no_lost_wakeup) have no schedule-enumerating harness; merge_all, share, observe_on and "
-         "delay are covered by the stress runs and the general theorems, their programs are not transcribed.", "DESIGN.md section 5 C10"),
+         "model's acquisitions; real-thread stress runs check overlap, common order and termination on seven pipelines. Schedule enumeration "
+         "on real threads: a stateful lock-level model of SubjectThreads / BehaviorSubject (Ileave.v: observer list, chamber, subscriber cells, "
+         "value cell, who holds what) is run against real threads driven by a cooperative controller through the lock_gate hook: every "
+         "schedule with <= 3 context switches (2 for three threads) for 24 sets of scripts (next, complete, error, subscribe, unsubscribe, "
+         "unsubscribe the subject, peek) plus random schedules; every acquisition and callback is compared with the model and the trace is "
+         "judged for deadlock, panic, overlapping callbacks, common order, exactly-once. PARTIAL: merge_all, share, observe_on and delay "
+         "pipelines are covered by the stress runs and the general theorems only; the lost-wake-up clause is C14_no_lost_wakeup.", "DESIGN.md section 5 C10"),
  "C11": ("Theorems (share / publish built on the subject machine of C06, upstream a counted subscription and a tap): "
          "C11_source_subscribed_at_most_once (any history, any number of subscribers, hot or cold source), C11_nothing_before_connection "
          "(publish: nothing is subscribed, driven or delivered before connect(); share: before the first subscriber), C11_multicast (an "
